@@ -311,9 +311,85 @@ func privateSlice(s *ssa.Slice, cache map[ssa.Value]bool) bool {
 				return false
 			}
 		case *ssa.Call:
-			bi, ok := r.Call.Value.(*ssa.Builtin)
-			if !ok || (bi.Name() != "len" && bi.Name() != "cap") {
+			if bi, ok := r.Call.Value.(*ssa.Builtin); ok {
+				if bi.Name() != "len" && bi.Name() != "cap" {
+					return false
+				}
+				continue
+			}
+			// handed to a function of the program that only reads the elements (a table of rows passed to a helper that
+			// loops over it): the cells are still written by this function's stores only
+			callee := r.Call.StaticCallee()
+			if callee == nil || len(callee.Blocks) == 0 || r.Call.IsInvoke() || len(callee.Params) != len(r.Call.Args) {
 				return false
+			}
+			for i, a := range r.Call.Args {
+				if a == ssa.Value(s) && !readOnlySliceParam(callee.Params[i], 0) {
+					return false
+				}
+			}
+		default:
+			return false
+		}
+	}
+	return true
+}
+
+// readOnlySliceParam: the function does nothing with its slice parameter p but take its length and load elements
+// (or fields of elements) at an index, or hand it on to a function that does the same.
+func readOnlySliceParam(p ssa.Value, depth int) bool {
+	if depth > 3 {
+		return false
+	}
+	refs := p.Referrers()
+	if refs == nil {
+		return false
+	}
+	var loadsOnly func(v ssa.Value) bool
+	loadsOnly = func(v ssa.Value) bool {
+		rs := v.Referrers()
+		if rs == nil {
+			return false
+		}
+		for _, ref := range *rs {
+			switch r := ref.(type) {
+			case *ssa.DebugRef:
+			case *ssa.UnOp:
+				if r.Op != token.MUL {
+					return false
+				}
+			case *ssa.FieldAddr:
+				if r.X != v || !loadsOnly(r) {
+					return false
+				}
+			default:
+				return false
+			}
+		}
+		return true
+	}
+	for _, ref := range *refs {
+		switch r := ref.(type) {
+		case *ssa.DebugRef:
+		case *ssa.IndexAddr:
+			if r.X != p || !loadsOnly(r) {
+				return false
+			}
+		case *ssa.Call:
+			if bi, ok := r.Call.Value.(*ssa.Builtin); ok {
+				if bi.Name() != "len" && bi.Name() != "cap" {
+					return false
+				}
+				continue
+			}
+			callee := r.Call.StaticCallee()
+			if callee == nil || len(callee.Blocks) == 0 || r.Call.IsInvoke() || len(callee.Params) != len(r.Call.Args) {
+				return false
+			}
+			for i, a := range r.Call.Args {
+				if a == p && !readOnlySliceParam(callee.Params[i], depth+1) {
+					return false
+				}
 			}
 		default:
 			return false
